@@ -76,6 +76,7 @@ static long n_events = 0;
 static long short_read = 0;
 static uint64_t dir_seed = 0;
 static long getrandom_calls = 0;
+static int stderr_errno = 0; /* plan: `stderrfail <errno>`: every write to fd 2 fails */
 
 static char *fd_paths[MAX_FDS];
 static int fd_created[MAX_FDS];
@@ -198,6 +199,8 @@ static void load_plan(const char *path) {
             max_events = strtol(arg, NULL, 10);
         } else if (!strcmp(line, "shortread")) {
             short_read = strtol(arg, NULL, 10);
+        } else if (!strcmp(line, "stderrfail")) {
+            stderr_errno = atoi(arg);
         } else if (!strcmp(line, "dirseed")) {
             dir_seed = strtoull(arg, NULL, 10);
         } else if (!strcmp(line, "fault")) {
@@ -405,6 +408,12 @@ ssize_t read(int fd, void *buf, size_t count) {
 
 ssize_t write(int fd, const void *buf, size_t count) {
     if (!real_write) resolve();
+    if (active && fd == 2 && stderr_errno > 0) {
+        budget_check();
+        logev("write", "<stderr>", -stderr_errno);
+        errno = stderr_errno;
+        return -1;
+    }
     if (!active || fd < 0 || fd >= MAX_FDS || !fd_paths[fd] || !fd_created[fd])
         return real_write(fd, buf, count);
     const char *path = fd_paths[fd];
@@ -424,6 +433,12 @@ ssize_t write(int fd, const void *buf, size_t count) {
 
 ssize_t writev(int fd, const struct iovec *iov, int iovcnt) {
     if (!real_writev) resolve();
+    if (active && fd == 2 && stderr_errno > 0) {
+        budget_check();
+        logev("write", "<stderr>", -stderr_errno);
+        errno = stderr_errno;
+        return -1;
+    }
     if (!active || fd < 0 || fd >= MAX_FDS || !fd_paths[fd] || !fd_created[fd])
         return real_writev(fd, iov, iovcnt);
     const char *path = fd_paths[fd];
